@@ -54,6 +54,7 @@ fn snap(store: &Shared<RefStore>) -> Snap {
     store.0.lock().unwrap().recs_ordered().into_iter().map(|r| (r.rp, r.handle, r.counter)).collect()
 }
 
+/// 0 required, 1 preferred, 2 discouraged (user verifies anyway), 3 discouraged and the user is not verified
 fn uvr(n: u8) -> UVR {
     match n {
         0 => UVR::Required,
@@ -106,7 +107,8 @@ fn apply(store: &Shared<RefStore>, act: &Act) -> (Vec<(String, String)>, String)
                 opts.public_key.timeout = Some(1);
             }
             let log = Log::new();
-            let mut client = mk_client(Logging { inner: store.clone(), log: log.clone() }, ScriptedUv::consenting(log.clone()), org, &AuthCfg::default());
+            let uvm = if *uv == 3 { ScriptedUv::consenting(log.clone()).outcome(UvOutcome::Ok { presence: true, verification: false }) } else { ScriptedUv::consenting(log.clone()) };
+            let mut client = mk_client(Logging { inner: store.clone(), log: log.clone() }, uvm, org, &AuthCfg::default());
             let res = authenticate(&mut client, org, *mode, opts);
             let after = store.0.lock().unwrap().recs_ordered();
             match res {
@@ -166,7 +168,10 @@ fn apply(store: &Shared<RefStore>, act: &Act) -> (Vec<(String, String)>, String)
                         if cred.response.authenticator_data.len() != 37 || ad.extensions.is_some() {
                             fs.push(("auth-data-not-37-bytes".into(), format!("{} bytes without any extension requested", cred.response.authenticator_data.len())));
                         }
-                        let want_uv = *uv != 2;
+                        let want_uv = *uv < 2;
+                        if *uv == 3 && ad.flags & rp::UV != 0 {
+                            fs.push(("uv-flagged-without-verification".into(), "the user was not verified, UV bit set".into()));
+                        }
                         if want_uv && ad.flags & rp::UV == 0 {
                             fs.push(("uv-not-flagged".into(), "userVerification required/preferred, user verified, UV bit clear".into()));
                         }
@@ -205,7 +210,7 @@ impl Sys for C03 {
         }
         for org in 0..4 {
             for allow in ALLOWS {
-                for uv in 0..3 {
+                for uv in 0..4 {
                     for mode in MODES {
                         v.push(Act::Authenticate { org, allow, uv, mode, challenge: 5 });
                     }
@@ -250,7 +255,7 @@ pub fn run(ctx: &Ctx) -> Result<Run, String> {
     let ok = g.stats.outcomes.get("auth:ok").copied().unwrap_or(0);
     let mut run = Run::from_stats(
         "model_checking",
-        "explicit-state BFS over histories: register(rp in 2, user in 2) and authenticate(origin/RP in 4 incl. a sub-domain origin of the same RP and an RP without credentials, allow list in {absent, empty, [own], [unknown, own], [unknown], [credential of another RP]}, userVerification in 3, client-data mode in 3) plus 10 challenges on two base assertions, from the empty and two seeded stores, on a real Client over the contract store; every assertion is verified by an independent relying party (ECDSA verify under the key derived from the stored scalar, client data, rpIdHash, flags, user handle). States are deduplicated on (RP, user handle, counter) per record in creation order; every transition is a distinct non-trivial real ceremony",
+        "explicit-state BFS over histories: register(rp in 2, user in 2) and authenticate(origin/RP in 4 incl. a sub-domain origin of the same RP and an RP without credentials, allow list in {absent, empty, [own], [unknown, own], [unknown], [credential of another RP]}, userVerification in {required, preferred, discouraged with and without the user verifying anyway}, client-data mode in 3) plus 10 challenges on two base assertions, from the empty and two seeded stores, on a real Client over the contract store; every assertion is verified by an independent relying party (ECDSA verify under the key derived from the stored scalar, client data, rpIdHash, flags, user handle). States are deduplicated on (RP, user handle, counter) per record in creation order; every transition is a distinct non-trivial real ceremony",
         true,
         g.stats,
     );
